@@ -538,6 +538,47 @@ def prepare(role, name, opts, seed):
     store = {}
     g = Genuine(opts, client_kwargs=_client_kwargs(opts, store), server_kwargs=_server_kwargs(opts, store))
     info = {"store": store, "opts": opts}
+    if role == "server" and name == "after_ch_0rtt":
+        # a resumed session whose early data the server accepts: the victim holds 0-RTT receive keys and the peer (the
+        # genuine client's keys, 0-RTT included) may put any frame into 0-RTT packets
+        opts1 = dict(opts, tickets=True)
+        store1 = {}
+        g1 = Genuine(opts1, client_kwargs=_client_kwargs(opts1, store1), server_kwargs=_server_kwargs(opts1, store1))
+        g1.complete()
+        g1.roundtrips(2)
+        tickets = store1.get("client_tickets") or []
+        if not tickets:
+            raise RuntimeError("harness: no session ticket obtained")
+        ticket = tickets[-1]
+        g = Genuine(opts1, client_kwargs=_client_kwargs(opts1, store1), server_kwargs=_server_kwargs(opts1, store1),
+                    tweak=lambda ccfg, scfg: setattr(ccfg, "session_ticket", ticket))
+        info = {"store": store1, "opts": opts1}
+        g.start()
+        g.client.send_stream_data(0, b"early" * 50)
+        version = g.client._version
+        first = g.emit("client")
+        keys = snapshot_keys(g.client)
+        if "0rtt" not in keys:
+            raise RuntimeError("harness: the genuine client has no 0-RTT send keys")
+        c_init, _s_init = rc.initial_keys(version, g.odcid)
+        keys["initial"] = c_init
+        victim = g.make_server()
+        drv = Drv(victim, "server", g.now, CLIENT_ADDR)
+        out = []
+        for d in first:
+            out += drv.receive(d)
+        out += drv.transmit()
+        from aioquic import tls as _tls
+
+        zr = victim._cryptos[_tls.Epoch.ZERO_RTT].recv
+        if not zr.is_valid():
+            raise RuntimeError("harness: the server did not install 0-RTT receive keys")
+        pn0 = g.client._packet_number + 10
+        peer = Peer("client", version, keys, dcid=bytes(victim.host_cid), scid=bytes(g.client.host_cid),
+                    next_pn={"I": pn0, "H": pn0, "A": pn0}, odcid=g.odcid)
+        info.update(odcid=g.odcid, version=version, first=first, victim_out=out, pending=[])
+        info["victim_cids"] = [bytes(c.cid) for c in drv.conn._host_cids]
+        return State(role, name, drv, peer, info)
     if role == "server":
         if name in ("fresh", "partial_ch", "after_ch"):
             g.start()
